@@ -13,7 +13,7 @@ Mon15Step(g, e) ==
   LET v == IF e.fail # "none" THEN {}
            ELSE (IF ~g.acked /\ e.kind # "HEL" /\ e.out # <<>> THEN {"answered-before-hello"} ELSE {})
                 \cup (IF ~g.acked /\ e.kind # "HEL" /\ e.fed /\ e.state # "Finished" THEN {"connection-survives-frame-before-hello"} ELSE {})
-                \cup (IF e.kind = "MSG" /\ ~g.issued /\ (\E j \in 1..Len(e.out) : IsService(e.out[j]))
+                \cup (IF e.kind \in {"MSG", "MSGS"} /\ ~g.issued /\ (\E j \in 1..Len(e.out) : IsService(e.out[j]))
                         THEN {"service-processed-before-open-secure-channel"} ELSE {})
                 \cup (IF g.closed /\ e.out # <<>> THEN {"processed-after-close"} ELSE {})
       g1 == [acked |-> g.acked \/ (e.fail = "none" /\ e.kind = "HEL" /\ Has(e.out, "ACK")),
